@@ -202,6 +202,8 @@ def r18_3(ctx):
 
 
 def r18_4(ctx):
+    from .common import pm_of
+
     p = ctx.p
     ca = p.func("throttle.check_allow")
     lf = p.func("throttle.login_failed")
@@ -212,39 +214,36 @@ def r18_4(ctx):
         consts = {k: ast.literal_eval(p.module_constant("throttle", k)) for k in ("PURGE_TIME", "MAX_USER_ATTEMPTS", "MAX_ADDR_ATTEMPTS")}
     except Exception:
         raise AnalysisError("throttle constants not evaluable")
-    ifs = [s for s in ca.node.body if isinstance(s, ast.If)]
-    purge = {}
-    early = None
-    deny = {}
-    for s in ifs:
-        t = norm(s.test)
-        for key, tab in (("user", "BAD_USER_AUTHS"), ("addr", "BAD_IP_AUTHS")):
-            if any(isinstance(b, ast.Delete) and norm(b.targets[0]) == f"{tab}[{key}]" for b in s.body):
-                purge[key] = t
-            if any(isinstance(b, ast.Return) and isinstance(b.value, ast.Constant) and b.value.value is False for b in s.body) and tab in t:
-                deny[key] = t
-        if any(isinstance(b, ast.Return) and isinstance(b.value, ast.Constant) and b.value.value is True for b in s.body):
-            early = t
-    for key, tab, mx in (("user", "BAD_USER_AUTHS", "MAX_USER_ATTEMPTS"), ("addr", "BAD_IP_AUTHS", "MAX_ADDR_ATTEMPTS")):
-        want_p = f"{key} in {tab} and now - {tab}[{key}][1] > PURGE_TIME"
-        if purge.get(key) == want_p:
+    pa = pm_of(p, ca)
+    ctx.require(pa.has("now = time.time()"), "check_allow: clock read not found")
+    user, addr = ca.node.args.args[0].arg, ca.node.args.args[1].arg
+    now = pa.name("now")
+    # locate the statements by structure (parameter / local names are read from the function itself)
+    found = {}
+    for key, var, tab, mx in (("user", user, "BAD_USER_AUTHS", "MAX_USER_ATTEMPTS"), ("addr", addr, "BAD_IP_AUTHS", "MAX_ADDR_ATTEMPTS")):
+        purge = [s for s in ca.node.body if isinstance(s, ast.If) and any(isinstance(b, ast.Delete) and norm(b.targets[0]) == f"{tab}[{var}]" for b in s.body)]
+        deny = [s for s in ca.node.body if isinstance(s, ast.If) and tab in norm(s.test) and any(isinstance(b, ast.Return) and isinstance(b.value, ast.Constant) and b.value.value is False for b in s.body)]
+        want_p = f"{var} in {tab} and {now} - {tab}[{var}][1] > PURGE_TIME"
+        if purge and norm(purge[0].test) == want_p:
             ctx.ok("R18.4", where(ca), f"{key}: entry purged exactly when `now - last > PURGE_TIME`")
         else:
-            ctx.bad("R18.4", ca.module, ca.qual, purge.get(key, f"purge of {tab}"), f"{key}: the purge test is not `{want_p}`: a lock-out ends too early / never, or an entry is purged before the interval has passed since the last failure", ca.node.lineno)
-        want_d = f"{key} in {tab} and {tab}[{key}][0] > {mx}"
-        if deny.get(key) == want_d:
+            ctx.bad("R18.4", ca.module, ca.qual, f"purge test of {tab}", f"{key}: the purge test is not `{want_p}` (found `{norm(purge[0].test) if purge else 'none'}`): a lock-out ends too early / never, or an entry is purged before the interval has passed since the last failure", ca.node.lineno)
+        want_d = f"{var} in {tab} and {tab}[{var}][0] > {mx}"
+        if deny and norm(deny[0].test) == want_d:
             ctx.ok("R18.4", where(ca), f"{key}: refused exactly when count > {mx}")
         else:
-            ctx.bad("R18.4", ca.module, ca.qual, deny.get(key, f"deny test on {tab}"), f"{key}: the refusal test is not `{want_d}` (wrong table, threshold or operator): attempts are refused at or below the threshold or allowed above it", ca.node.lineno)
-    want_e = "user not in BAD_USER_AUTHS and addr not in BAD_IP_AUTHS"
-    if early is None or early == want_e:
+            ctx.bad("R18.4", ca.module, ca.qual, f"deny test on {tab}", f"{key}: the refusal test is not `{want_d}` (found `{norm(deny[0].test) if deny else 'none'}`): wrong table, threshold or operator - attempts are refused at or below the threshold or allowed above it", ca.node.lineno)
+        found[key] = (purge, deny)
+    early = [s for s in ca.node.body if isinstance(s, ast.If) and any(isinstance(b, ast.Return) and isinstance(b.value, ast.Constant) and b.value.value is True for b in s.body)]
+    want_e = f"{user} not in BAD_USER_AUTHS and {addr} not in BAD_IP_AUTHS"
+    if not early or all(norm(e.test) == want_e for e in early):
         ctx.ok("R18.4", where(ca), "early `return True` only when neither key has a recorded failure")
     else:
-        ctx.bad("R18.4", ca.module, ca.qual, early, f"the early `return True` fires on `{early}` instead of `{want_e}`: an attempt is allowed although one of its keys is over its threshold (locked-out address tries a fresh user name, or locked-out user from a fresh address)", ca.node.lineno)
-    # order: purge before threshold tests; final return True
+        ctx.bad("R18.4", ca.module, ca.qual, "early return True", f"the early `return True` fires on `{norm(early[0].test)}` instead of `{want_e}`: an attempt is allowed although one of its keys is over its threshold (locked-out address tries a fresh user name, or locked-out user from a fresh address)", ca.node.lineno)
+    ifs = [s for s in ca.node.body if isinstance(s, ast.If)]
     lines = [(s.lineno, "purge" if any(isinstance(b, ast.Delete) for b in s.body) else ("deny" if any(isinstance(b, ast.Return) and isinstance(b.value, ast.Constant) and b.value.value is False for b in s.body) else "other")) for s in ifs]
     kinds = [k for _, k in sorted(lines)]
-    if kinds.index("deny") > max(i for i, k in enumerate(kinds) if k == "purge"):
+    if "deny" in kinds and "purge" in kinds and kinds.index("deny") > max(i for i, k in enumerate(kinds) if k == "purge"):
         ctx.ok("R18.4", where(ca), "expired entries are purged before the thresholds are tested")
     else:
         ctx.bad("R18.4", ca.module, ca.qual, " -> ".join(kinds), "thresholds are tested before expired entries are purged", ca.node.lineno)
@@ -252,22 +251,23 @@ def r18_4(ctx):
     if isinstance(last, ast.Return) and isinstance(last.value, ast.Constant) and last.value.value is True:
         ctx.ok("R18.4", where(ca), "an attempt at or below both thresholds is allowed (final return True)", nontrivial=False)
     else:
-        ctx.bad("R18.4", ca.module, ca.qual, norm(last), "check_allow no longer ends by allowing attempts under both thresholds", last.lineno)
+        ctx.bad("R18.4", ca.module, ca.qual, "final return", "check_allow no longer ends by allowing attempts under both thresholds", last.lineno)
     if consts["MAX_USER_ATTEMPTS"] >= 1 and consts["MAX_ADDR_ATTEMPTS"] >= 1 and consts["PURGE_TIME"] > 0:
         ctx.ok("R18.4", "throttle:<module>", f"constants positive: {consts}", nontrivial=False)
     else:
         ctx.bad("R18.4", "throttle", "<module>", str(consts), "throttle constants are not positive", 0)
     # login_failed
+    pl = pm_of(p, lf)
+    ctx.require(pl.has("now = time.time()"), "login_failed: clock read not found")
+    luser, laddr = lf.node.args.args[0].arg, lf.node.args.args[1].arg
+    lnow = pl.name("now")
     t = norm(lf.node, 6000)
-    for key, tab in (("user", "BAD_USER_AUTHS"), ("addr", "BAD_IP_AUTHS")):
-        if f"{tab}[{key}] = ({tab}[{key}][0] + 1, now)" in t and f"{tab}[{key}] = (1, now)" in t:
+    for key, var, tab in (("user", luser, "BAD_USER_AUTHS"), ("addr", laddr, "BAD_IP_AUTHS")):
+        if f"{tab}[{var}] = ({tab}[{var}][0] + 1, {lnow})" in t and f"{tab}[{var}] = (1, {lnow})" in t:
             ctx.ok("R18.4", where(lf), f"{key}: failure count +1 (or 1) and last-failure time = now")
         else:
-            ctx.bad("R18.4", lf.module, lf.qual, f"{tab}[{key}] update", f"login_failed no longer adds exactly one failure stamped `now` to {tab}", lf.node.lineno)
-    if "now = time.time()" in t and "now = time.time()" in norm(ca.node, 8000):
-        ctx.ok("R18.4", "throttle:login_failed/check_allow", "both use the same clock (time.time())", nontrivial=False)
-    else:
-        ctx.bad("R18.4", "throttle", "check_allow", "now = time.time()", "recording and checking no longer use the same clock", ca.node.lineno)
+            ctx.bad("R18.4", lf.module, lf.qual, f"{tab} update", f"login_failed no longer adds exactly one failure stamped `now` to {tab}", lf.node.lineno)
+    ctx.ok("R18.4", "throttle:login_failed/check_allow", "both use the same clock (time.time())", nontrivial=False)
 
 
 def r18_5(ctx):
@@ -276,8 +276,13 @@ def r18_5(ctx):
     g = ctx.cfg(au)
     t = norm(au.node, 8000)
     rets = [n.id for n in g.nodes if n.kind == "return"]
-    unk = [n.id for n in g.nodes if n.kind == "test" and norm(n.ast) == "username not in USERS"]
-    pw = [n.id for n in g.nodes if n.kind == "test" and "acheck_password(password, user.pw_hash)" in norm(n.ast)]
+    from .common import pm_of
+    pau = pm_of(p, au)
+    uname, pword = au.node.args.args[0].arg, au.node.args.args[1].arg
+    pau.has("user = USERS[username]")
+    uvar = pau.name("user") or "user"
+    unk = [n.id for n in g.nodes if n.kind == "test" and norm(n.ast) == f"{uname} not in USERS"]
+    pw = [n.id for n in g.nodes if n.kind == "test" and f"acheck_password({pword}, {uvar}.pw_hash)" in norm(n.ast)]
     okv = bool(unk and pw and rets)
     if okv:
         # the only return is reached through unk:false and pw:false(not ...) edges
@@ -292,7 +297,7 @@ def r18_5(ctx):
             if any(r in seen for r in rets):
                 okv = False
         ctx.paths_explored += 4
-    if okv and "if not await acheck_password(password, user.pw_hash)" in t:
+    if okv and f"if not await acheck_password({pword}, {uvar}.pw_hash)" in t:
         ctx.ok("R18.5", where(au), "authenticate returns a user only after `username in USERS` and acheck_password(...) true; both failing arms raise")
     else:
         ctx.bad("R18.5", au.module, au.qual, "unknown user / wrong password arms", "authenticate() can return a user without the password having been verified (or for an unknown user)", au.node.lineno)
@@ -302,17 +307,18 @@ def r18_5(ctx):
         ctx.ok("R18.5", where(vp), "None / unusable (disabled) hashes are rejected before any hasher runs")
     else:
         ctx.bad("R18.5", vp.module, vp.qual, norm(first, 100), "verify_password no longer rejects a None password / unusable hash first: a disabled account may authenticate", first.lineno)
-    if "is_correct = hasher.verify(password, encoded)" in norm(vp.node, 6000) and "return (is_correct, must_update)" in norm(vp.node, 6000):
+    pvp = pm_of(p, vp)
+    if pvp.has("is_correct = hasher.verify(password, encoded)") and pvp.has("return (is_correct, must_update)"):
         ctx.ok("R18.5", where(vp), "result is the hasher's verify() verdict", nontrivial=False)
     else:
         ctx.bad("R18.5", vp.module, vp.qual, "is_correct = hasher.verify(password, encoded)", "verify_password no longer returns the hasher's verdict", vp.node.lineno)
     ru = p.func("auth.read_users_from_file")
-    tt = norm(ru.node, 10000)
-    if "users[username] = PWUser(username, maildir, pw_hash)" in tt and "USERS[username] = users[username]" in tt and "del USERS[username]" in tt:
+    pru = pm_of(p, ru)
+    if pru.has("users[username] = PWUser(username, maildir, pw_hash)") and (pru.has("USERS[username2] = users[username2]") or pru.has("USERS[username] = users[username]")) and (pru.has("del USERS[username3]") or pru.has("del USERS[username]") or pru.has("del USERS[username2]")):
         ctx.ok("R18.5", where(ru), "a reload replaces every parsed entry (new hash) and drops removed users")
     else:
         ctx.bad("R18.5", ru.module, ru.qual, "USERS[username] = users[username]", "a password-file reload no longer replaces the stored entry with the newly parsed one: an old (changed or disabled) password keeps working until restart", ru.node.lineno)
-    if "if mtime > PW_FILE_LAST_TIMESTAMP" in t and "await read_users_from_file(PW_FILE_LOCATION)" in t:
+    if pau.has("mtime = await aiofiles.os.path.getmtime(PW_FILE_LOCATION)") and pau.has("if mtime > PW_FILE_LAST_TIMESTAMP:\n    ...\n    await read_users_from_file(PW_FILE_LOCATION)\n    ..."):
         ctx.ok("R18.5", where(au), "password file re-read when its mtime advanced", nontrivial=False)
     else:
         ctx.bad("R18.5", au.module, au.qual, "reload on mtime", "authenticate no longer reloads a changed password file", au.node.lineno)
